@@ -82,8 +82,15 @@ def runDrive (s : St) : String :=
         let d := match d with
           | some m => some m
           | none => if s.map.isNone && !decide (canon.ranges = t.ranges) then some "included ranges of the trees differ" else none
+        -- a cancelled and resumed parse may rotate the HIDDEN repeat nodes differently (balancing is restarted):
+        -- invisible through the node API; accepted when the visible trees are identical, counted as `internal=1`
+        let d := match d with
+          | some m => if s.kind == "cancel-resume" &&
+                (visibleList canon.root length_zero == visibleList t.root length_zero) then none else some m
+          | none => none
+        let internal := d.isNone && (diffTree s.map canon.root t.root 0 0).isSome
         match d with
-        | none => s!"{base} eq=ok cause=- nodes={canon.root.size}"
+        | none => s!"{base} eq=ok cause=- nodes={canon.root.size} internal={if internal then 1 else 0}"
         | some msg =>
           if s.kind == "chunk" then
             -- is this exactly the short-chunk finding?  the chunking violates WholeChar at a character start
@@ -101,6 +108,7 @@ def runDrive (s : St) : String :=
             let err := hasErr canon.root || hasErr t.root
             let cause := if s.kind == "utf16" && err then "utf16-error-recovery"
               else if s.kind == "cancel-resume" && err then "resume-error-recovery"
+              else if s.kind == "cancel-resume" && sameModuloStates canon.root t.root then "resume-token-parse-state"
               else "other"
             s!"{base} eq=FAIL {msg} cause={cause} err={if err then 1 else 0}"
 
